@@ -16,7 +16,7 @@ sequences over <= 4 (quick) / <= 5 (thorough) keys for keyed lists and leaf-list
 import json, os
 from vlib import treegen as tg, paths
 
-LEAN_TARGETS = ["LyModel.Props.C06"]
+LEAN_TARGETS = ["LyModel.Props.C06", "LyModel.Props.C06UO", "LyModel.Props.C06UOList", "LyModel.Props.C06UONb", "LyModel.Props.C06UONest"]
 AUDIT = "Audit/C06.lean"
 HARNESS = "api_diff"
 COMP = "diff"
@@ -394,6 +394,8 @@ def process(cx, schemas, cases, tag, laws=True, apply3=True, law_mod=1):
             c.D[o] = tg.untok(c.s, r[1])
             c.feat[o] = features(c.s, tg.untok(c.s, c.a), tg.untok(c.s, c.b), c.D[o], o)
         cx.dist["pair:" + c.kind] += 1
+    # ---- 1b. which cases satisfy the hypotheses of the proved theorem Props.C06UO.apply_diff_userord_flat_ll(_dec)?
+    theorem_cases(cx, head, cases, tag)
     # ---- 2. apply correspondence inside the model's fragment
     lines = []
     for k, c in enumerate(cases):
@@ -421,6 +423,80 @@ def process(cx, schemas, cases, tag, laws=True, apply3=True, law_mod=1):
     rep = run_with_schemas(cx, schemas, lines)
     for i, (c, o) in idx.items():
         eval_law(cx, c, o, rep.get(i, ["err", "NoReply"]))
+
+
+def core_ops_of_diff(D, keyed=False):
+    """libyang's diff of a flat user-ordered leaf-list / key-only single-key list pair, rendered like
+    LyModel.Diff.UOB.renderOp / renderOpK (identity = value / key value, anchor = yang:value / yang:key)"""
+    out = []
+    for n in D:
+        op = meta(n, "operation")
+        anchor = meta(n, "key" if keyed else "value")
+        a = "~" if not anchor else tg.hx(anchor)
+        ident = tg.hx(n.kids[0].val if keyed and n.kids else n.val)
+        if op == b"delete":
+            out.append("d:" + ident)
+        elif op == b"create":
+            out.append("c:%s:%s" % (ident, a))
+        elif op == b"replace":
+            out.append("m:%s:%s" % (ident, a))
+        else:
+            out.append("?:" + ident)
+    return out
+
+
+def theorem_cases(cx, head, cases, tag):
+    """Per generated case (with LYD_DIFF_DEFAULTS): the driver evaluates the DECIDABLE hypothesis of the theorem
+    `apply_diff_userord_flat_ll_dec` (`flatLL`: both trees = plain instances of one user-ordered configuration leaf-list,
+    duplicate-free, no empty value in B).  Counted in the distribution; for those cases libyang's diff must be, node for node,
+    the encoding of the list core's `UOG.diffU` (theorem `diff_userord_flat_ll_sim`), and the law `cmp` must hold (theorem
+    `apply_diff_userord_flat_ll`; evaluated with the other laws, unclassifiable there because F122 is excluded)."""
+    lines, idx = [], {}
+    for k, c in enumerate(cases):
+        if 1 not in c.D:
+            continue
+        A, B = tg.untok(c.s, c.a), tg.untok(c.s, c.b)
+        tops = A + B
+        # cheap necessary condition (the driver decides): a user-ordered (leaf-)list has instances at the top level
+        if not any(n.sn.kind in ("leaflist", "list") and n.sn.is_userord() for n in tops) and not (
+                len(A) == 1 and len(B) == 1 and A[0].sn is B[0].sn and A[0].sn.kind == "container"
+                and any(n.sn.kind == "leaflist" and n.sn.is_userord() for n in A[0].kids + B[0].kids)):
+            cx.dist["thm:apply_diff_userord_flat:hypotheses-fail"] += 1
+            continue
+        i = "h%s%d" % (tag, k)
+        lines.append("%s %s uohyp %s %s %s" % (i, COMP, tg.hx(c.s.dsl()), c.a, c.b))
+        idx[i] = c
+    if not lines:
+        return
+    rm = cx.run_model(head + lines)
+    for l in lines:
+        i = l.split()[0]
+        c = idx[i]
+        r = rm.get(i, ["err", "NoReply"])
+        if r[0] != "ok":
+            cx.disagree(COMP, l, ["ok", "?"], r)
+            continue
+        if r[1] not in ("1", "2", "3", "4"):
+            cx.dist["thm:apply_diff_userord_flat:hypotheses-fail"] += 1
+            continue
+        # flatLL (leaf-list alone) / flatKL (single-key list, key-only instances) / nbLL (leaf-list between inert neighbours)
+        # contLL (both trees one container holding the leaf-list between inert neighbours)
+        thm = {"1": "ll", "2": "kl", "3": "ll_neighbours", "4": "ll_in_container"}[r[1]]
+        cx.dist["thm:apply_diff_userord_flat_%s:hypotheses-hold" % thm] += 1
+        c.feat[1] = sorted(set(c.feat.get(1, [])) | {"thm-userord-flat-" + thm})
+        core = r[3:]
+        if thm == "ll_in_container":
+            # the diff is one copy of the container with operation=none holding the operations (or empty)
+            D = c.D[1]
+            top = tg.untok(c.s, c.a)[0].sn
+            ok_shape = not D or (len(D) == 1 and D[0].sn is top and meta(D[0], "operation") == b"none")
+            impl = core_ops_of_diff(D[0].kids) if D and ok_shape else ([] if ok_shape else ["?shape"])
+        else:
+            impl = core_ops_of_diff(c.D[1], keyed=(thm == "kl"))
+        cx.count(("uocore", c.s.name, c.a, c.b), bool(core), "diff:uocore-%s:%s" % (thm, "ops" if core else "empty"))
+        if impl != core:
+            cx.dist["thm:apply_diff_userord_flat_%s:libyang-diff-differs-from-core" % thm] += 1
+            cx.disagree(COMP, l, ["ok", r[1], r[2]] + impl, r)
 
 
 def differential(cx, head, lines, kind, nontrivial, skip=None):
@@ -523,6 +599,28 @@ def exhaustive(cx):
         total += len(cases)
         for lo in range(0, len(cases), 6000):
             process(cx, [s], cases[lo:lo + 6000], tag="i%s%d.%d" % (kind, nk, lo), laws=True, apply3=False, law_mod=1)
+    # the class of the proved theorem Props.C06UO.apply_diff_userord_flat_ll: a module whose ONLY node is a user-ordered
+    # configuration leaf-list (in the schemas above libyang puts the implicit container next to the top-level instances), all
+    # ordered pairs of duplicate-free sequences; values with blanks and both quote characters, never the empty string (F122)
+    s = tg.Schema("uollonly", [tg.SNode("leaflist", "ul", ty=tg.Ty("string"), userord=True)])
+    vals = [b"a", b"b b", b"c'", b'd"', b"ee"]
+    for nk, mod in (((5, 4), (4, 1)) if thorough else ((4, 4), (3, 1))):
+        seqs = tg.all_nodup_seqs(nk)
+        cases = [Case(s, [tg.DN(s.top[0], vals[k]) for k in x], [tg.DN(s.top[0], vals[k]) for k in y], "userord-llonly")
+                 for ia, x in enumerate(seqs) for ib, y in enumerate(seqs) if mod == 1 or (ia * 7 + ib) % mod == 0]
+        total += len(cases)
+        for lo in range(0, len(cases), 6000):
+            process(cx, [s], cases[lo:lo + 6000], tag="xllonly%d.%d" % (nk, lo), laws=True, apply3=False, law_mod=3 if nk >= 5 else 1)
+    # the class of Props.C06UO.apply_diff_userord_flat_kl: a module whose only node is a single-key user-ordered list, key-only
+    s = tg.Schema("uoklonly", [tg.SNode("list", "ul", keys=["k"], userord=True, kids=[tg.SNode("leaf", "k", ty=tg.Ty("string"), iskey=True)])])
+    for nk, mod in (((5, 4), (4, 1)) if thorough else ((4, 4), (3, 1))):
+        seqs = tg.all_nodup_seqs(nk)
+        cases = [Case(s, [tg.DN(s.top[0], None, [tg.DN(s.top[0].kids[0], vals[k])]) for k in x],
+                      [tg.DN(s.top[0], None, [tg.DN(s.top[0].kids[0], vals[k])]) for k in y], "userord-klonly")
+                 for ia, x in enumerate(seqs) for ib, y in enumerate(seqs) if mod == 1 or (ia * 7 + ib) % mod == 0]
+        total += len(cases)
+        for lo in range(0, len(cases), 6000):
+            process(cx, [s], cases[lo:lo + 6000], tag="xklonly%d.%d" % (nk, lo), laws=True, apply3=False, law_mod=3 if nk >= 5 else 1)
     cx.exhaustive = True
     cx.notes.append("exhaustive: %d ordered pairs of duplicate-free user-ordered sequences; complete at the top level for %s"
                     % (total, ", ".join(complete)))
